@@ -100,6 +100,29 @@ def run(pid, tier):
     if 'Invariant MonotoneStrict is violated' not in neg['out']:
         raise V.Infra('MC_Observe sanity: the resource-wide dirty flag is NOT rejected by the model')
     cases = gen(tier, rnd)
+    # direction A: behaviours generated by TLC from spec/Gen_Observe.tla (the driver's commands as actions over Observe), each command followed by the
+    # set of registered (client, resource) pairs the specification predicts
+    import json as _json, re as _re
+    gst = V.tlc('Gen_Observe', 'Gen_Observe.cfg', workers=4, extra=['-simulate', 'num=%d' % (60 if tier == 'quick' else 3000), '-depth', '14', '-seed', str(V.seed() * 17 + 11)],
+                timeout=900, xmx='4g', deque=False)
+    if 'is violated' in gst['out'] or 'Error:' in gst['out']:
+        raise V.Infra('Gen_Observe: the behaviour generator violates its own invariants (specification error):\n' + gst['out'][-2500:])
+    nbeh, seenb = 0, set()
+    for m in _re.finditer(r'^<<"BEH", "(.*)">>$', gst['out'], _re.M):
+        txt = m.group(1).replace('\\"', '"')
+        if txt in seenb:
+            continue
+        seenb.add(txt)
+        nbeh += 1
+        ops = []
+        for a in _json.loads(txt):
+            c, x, y = a['c'], a['a'], a['b']
+            ops += {'G': ['G %d %d %02x%02x' % (x, y, 0xa0 + x, y)], 'U': ['U %d %d %02x%02x' % (x, y, 0xa0 + x, y)], 'Prst': ['P %d rstall' % x], 'Pack': ['P %d ack' % x],
+                    'H': ['H %d' % x, 'I 50'], 'D': ['D %d' % x]}[c]
+            ops.append('Z ' + ' '.join('%d:%d' % (p[0], p[1]) for p in a['reg']))
+        cases.append((200000 + nbeh, ['X id=%d mode=0 start=0 nres=2 big=0' % (200000 + nbeh)] + ops + ['E']))
+    if nbeh < 30:
+        raise V.Infra('Gen_Observe produced %d behaviours only' % nbeh)
     jobs = []
     for ci in range(V.NCPU):
         ch = cases[ci::V.NCPU]
@@ -156,7 +179,7 @@ def run(pid, tier):
     vio_out += [('session loss: ' + t, p_) for (t, p_) in lvio]
     kf = [f for f in V.enabled_findings(pid) if f['id'] in known]
     V.write_evidence(pid, tier, 'model_checking', dict(
-        session_loss_histories=lexec,
+        session_loss_histories=lexec, behaviours_generated_by_tlc_and_replayed=nbeh,
         states=mcst['distinct'], transitions=mcst['generated'], traces_validated_against_impl=nexec,
         samples=[cases[0][1], cases[-1][1]], model_action_coverage=mcst['action_cov'], known_findings_fired=sorted(known), exhaustive=False,
         rule='MC_Observe: all interleavings of register / re-register / cancel / change / notify / reset for 2 clients with the counter starting below the '
